@@ -184,7 +184,8 @@ def run(tier):
     mjobs = [(e["toks"], rnd.randrange(1 << 30)) for e in rnd.sample(progs, 1500 if tier == "quick" else 20000)]
     mitems = []
     for lst in pmap(_accepted_mutants, mjobs, chunk=16):
-        mitems += [(src, "mutant") for src in lst]
+        # (the label names what an open finding is keyed on)
+        mitems += [(src, "mutant:atomic" if "_Atomic (" in src else "mutant") for src in lst]
     seen = set()
     mitems = [x for x in mitems if not (x[0] in seen or seen.add(x[0]))]
     run_population(ctx, mitems, "accepted token mutants", rnd, 0)
